@@ -8,9 +8,12 @@
     growing         add_new_direction_while_growing / get_new_direction_for_growing   (growing phase: ndirs_initial < npt-1)
     softIncreaseNpt soft_restart with restarts.increase_npt
     momentum        move_furthest_points_momentum           regression.momentum_extra_steps
-    projSelector    initialise_coordinate_directions, projection branch: the selector array is drawn
-                    unconditionally (controller.py) and used only inside the rank-repair loops
-    projRepair      draws made inside the rank-repair loops (the initial directions were rank deficient)
+    projSelector    initialise_coordinate_directions, projection branch: selector arrays (np.random.randint), drawn once
+                    unconditionally and again after every round of the sign-flip repair loop; a selector only chooses
+                    which sign flips are TRIED — a flip is kept only when it raises the rank — so it is not counted as a
+                    draw that reaches an evaluation point (the harness compares such runs under different RNG states:
+                    an observable dependence on the selector is reported as a failing input)
+    projRepair      random replacement directions (np.random.normal) of the last repair loop: these become evaluation points
 -/
 namespace Dfols
 namespace RngAcc
